@@ -30,7 +30,9 @@ def short_tupleu(t, d, fam, depth=0) -> bool:
     if k == "opt":
         return d is not None and short_tupleu(t.args[0], d, fam, depth + 1)
     if k in ("data", "td") and isinstance(d, dict):
-        return any(f.name in d and short_tupleu(f.ty, d[f.name], fam, depth + 1) for f in fam.get(t.name).fields)
+        # a dataclass field may arrive under its alias (serialize_by_alias / allow_deserialization_not_by_alias)
+        return any(key in d and short_tupleu(f.ty, d[key], fam, depth + 1)
+                   for f in fam.get(t.name).fields for key in ([f.name] + ([f.alias] if getattr(f, "alias", None) else [])))
     if k == "nt" and isinstance(d, (list, tuple, str)):
         return any(short_tupleu(f.ty, x, fam, depth + 1) for f, x in zip(fam.get(t.name).fields, d))
     return False
@@ -190,11 +192,15 @@ def run(ctx: vlib.Ctx):
     ctx.coverage["rule"] = ("schemas from the shared grammar generator x inputs = encoder output of conforming values plus a foreign stream "
                             "(one position of a valid wire value replaced by a wrong JSON type / removed / null / extra key / surplus item, or pure junk); "
                             "distinct = (type tree, input) pairs; non-trivial = input is not the unmodified encoder output")
-    ctx.theorems("props/C03_unpack.vo", ["C03_unpack_ref", "C03_field_unpacker", "C03_well_typed"])
+    ctx.theorems("props/C03_unpack.vo", ["C03_unpack_ref", "C03_field_unpacker", "C03_well_typed", "C03_well_typed_ord", "C03_str_input_any_fuel", "C03_str_fuel_sufficient"])
     ctx.trusted += ["tools/kernels/k7_tuple_indexes.py (translator of the arg_indexes loop; validated each run against the source loop executed on abstract argument lists)"]
-    ctx.trusted += ["TyModel.v (cu/uk: hand-written model of unpack.py registry order incl. iteration of str/dict inputs, tuple surplus, field lookup) "
+    ctx.trusted += ["TyModel.v (cu/uk: hand-written model of unpack.py registry order incl. iteration of str/dict inputs, tuple surplus, field lookup, "
+                    "NamedTuple positions with trailing defaults, TypedDict required/optional keys) "
                     "tied by vm_compute correspondence; stdlib constructors (int/float/str, fromisoformat, UUID, Decimal, ..., decodebytes, Enum()) are oracle tables"]
-    ctx.assumptions += ["conformance of results (exact classes) and NamedTuple/TypedDict/abstract collections are decided by the oracle only"]
+    ctx.assumptions += ["abstract collections, tuples with unpacked segments, unions/literals are decided by the oracle only; NamedTuple (as_list form) and TypedDict are "
+                        "inside the Coq grammar (C03_unpack_ref, C03_well_typed + correspondence incl. inputs with one nested sequence cut short); sequence-like "
+                        "inputs of a NamedTuple/fixed tuple other than list/tuple/str (bytes, dicts with integer keys, NamedTuple instances) are not modelled; "
+                        "namedtuple_as_dict and generic NamedTuples/TypedDicts are oracle only"]
 
     k7_part(ctx)
     cases, bad, log = tycorr.run(ctx, "c03_ty", ctx.budget(60, 400), 2, depth=3, foreign=4)
